@@ -11,6 +11,13 @@ C  LyotCoronagraph / OccultedLyotCoronagraph: m = 1 ⇒ stop·E, m = 0 ⇒ 0 on 
 D  level / grid / window bookkeeping of the multi-scale coronagraphs on a box (tie T3);
 E  measured leakage (< 1 %) and off-axis throughput (> 50 % at 10 λ/D) of Vortex, VectorVortex
    and FQPM coronagraphs — the clause no theorem decides.
+F  (round 4) the algebra of the multi-scale constructors / forward / backward on exact stand-ins.
+G  (round 5) chromatic parameters x one object used at several wavelengths: VectorVortex with
+   phase_retardation a callable of wavelength, Lyot / occulted Lyot with a focal mask that is a
+   function of wavelength, Perfect / Vortex / FQPM — histories in which the design wavelength is
+   not first; every step against a fresh object, the closed form at that wavelength
+   (out(d) = cos(d/2) out(0) + sin(d/2) out(pi); leak cos^2(d/2)), the nulling clause at the
+   design wavelength, and the model's `chromRun` / `vvLeak` / `retarderJones` (op `vvrun`).
 """
 import math
 import time
@@ -398,7 +405,11 @@ def pmat_lines(case, obs):
             lines.append('C09 papply %s' % rat_list(E.real))
             lines.append('C09 papply %s' % rat_list(E.imag))
             per.append(2)
-    return lines, {'cplx': cplx, 'nap': len(aps), 'per': per, 'pmatrix': want_matrix, 'full': bool(np.all(cf == 1))}
+    unit = case.get('grid') is not None
+    if unit:
+        # round 5: hypothesis of perfectMat_unweighted_power_le — T+ = T^T in the *unweighted* product (unit weights, mu = 1)
+        lines.append('C09 pmat %s %s %s %s %s' % (rat_lists(Tr), rat_lists(Tir), rat_list(cf), rat_list(np.ones(len(w))), rat(1.0)))
+    return lines, {'cplx': cplx, 'nap': len(aps), 'per': per, 'pmatrix': want_matrix, 'full': bool(np.all(cf == 1)), 'unit': unit}
 
 
 def check_pmat(ctx, case, obs, resp, meta):
@@ -468,6 +479,22 @@ def check_pmat(ctx, case, obs, resp, meta):
         if hyp_ok and meta['full'] and pout > pin * (1 + Fraction(1, 10 ** 9)):
             ctx.disagree('C09 perfectMat', {'case': short, 'field': name, 'what': 'hypotheses hold but the model power grows', 'pin': float(pin), 'pout': float(pout)})
             return
+    if meta.get('unit'):
+        mu_ = dict(t.split('=') for t in resp[pos].split()[1:])
+        ctx.traces_validated += 1
+        ctx.count('B:weighted:unit-weight-adjoint-checked')
+        if not float(Fraction(mu_['adj'])) <= 1e-9:
+            ctx.disagree('C09 pmat hypothesis', {'case': short, 'what': 'on a weighted grid transformation_inverse is not the unweighted adjoint of transformation '
+                                                 '(hypothesis of perfectMat_unweighted_power_le)', 'defect': float(Fraction(mu_['adj']))})
+        elif leftinv <= 1e-9 and meta['full']:
+            # conclusion of perfectMat_unweighted_power_le on the real outputs: the unweighted sum of |E|^2 never grows
+            for name, E, o1 in obs['outs']:
+                ctx.traces_validated += 1
+                pin_u, pout_u = float((np.abs(E)**2).sum()), float((np.abs(o1)**2).sum())
+                if pout_u > pin_u * (1 + 1e-9) + 1e-300:
+                    ctx.violation('perfect weighted-grid unweighted-power', 'PerfectCoronagraph on a grid with non-constant weights: the unweighted sum of |E|^2 grows '
+                                  'from %.6g to %.6g for field %s' % (pin_u, pout_u, name), case)
+                    break
 
 
 def part_b(ctx):
@@ -1518,6 +1545,368 @@ def part_f(ctx):
 
 
 # =============================================================================================
+# G. chromatic parameters x one object used at several wavelengths (round 5)
+
+PYTH = [(3, 4, 5), (5, 12, 13), (8, 15, 17), (7, 24, 25), (20, 21, 29), (12, 35, 37), (9, 40, 41), (28, 45, 53)]
+RATIOS = [0.5, 0.625, 0.75, 0.875, 1.125, 1.25, 1.375, 1.5, 2.0]
+
+
+def _retardance(case, wl):
+    """phase retardation of the chromatic plate of `case` at wavelength `wl` (half wave at case['wl0'])."""
+    r = wl / case['wl0']
+    law = case['law']
+    if law == 'inverse':
+        return math.pi / r
+    if law == 'linear':
+        return math.pi * (1 + case['slope'] * (r - 1))
+    if law == 'table':
+        for rr, a, b, c in case['table']:
+            if abs(rr - r) < 1e-9:
+                return 2 * math.atan2(b / c, a / c)
+        raise KeyError('wavelength not in the retardance table')
+    raise MachineryError('unknown law')
+
+
+def _as_callable(f, argname):
+    """the same function of wavelength under the argument spellings hcipy's signature guess looks at"""
+    if argname == 'wavelength':
+        return lambda wavelength: f(wavelength)
+    if argname == 'lam':
+        return lambda lam: f(lam)
+    if argname == 'wvl':
+        return lambda wvl: f(wvl)
+
+    def of_w(w):
+        return f(w)
+    return of_w
+
+
+def gen_history(rng, force_design=None):
+    n = int(rng.integers(2, 5))
+    ratios = [float(rng.choice(RATIOS)) for _ in range(n)]
+    where = force_design if force_design is not None else str(rng.choice(['later', 'later', 'later', 'first', 'absent', 'twice']))
+    if where == 'later':
+        ratios[int(rng.integers(1, n))] = 1.0
+    elif where == 'first':
+        ratios[0] = 1.0
+    elif where == 'twice':
+        ratios[int(rng.integers(1, n))] = 1.0
+        ratios.append(ratios[0])
+        ratios.append(1.0)
+    return ratios, where
+
+
+def gen_chrom_case(rng, kind=None, where=None):
+    kind = kind or str(rng.choice(['vvc', 'lyot', 'occulted', 'perfect', 'vortex', 'fqpm'], p=[.4, .15, .15, .1, .1, .1]))
+    ratios, where = gen_history(rng, where)
+    wl0 = float(rng.choice([1.0, 1.6e-6, 0.5, 2.0]))
+    case = {'part': 'G', 'kind': kind, 'wl0': wl0, 'ratios': ratios, 'design': where,
+            'argname': str(rng.choice(['wavelength', 'lam', 'wvl', 'w'])), 'seed': int(rng.integers(0, 2**31))}
+    if kind == 'vvc':
+        charge = int(rng.choice([2, 2, 4]))
+        s = float(rng.choice([2, 4]))
+        case.update({'charge': charge, 'N': int(rng.integers(28, 37)), 'q': float({2: 32, 4: 64}[charge]), 's': s,
+                     'w': int(rng.choice([16, 20, 24])), 'lyot': float(rng.choice([0.9, 0.95])),
+                     'law': str(rng.choice(['inverse', 'linear', 'table'])), 'slope': float(rng.choice([0.5, -0.75, 1.0, 0.25])),
+                     'polarised': bool(rng.random() < 0.3), 'azimuth_deg': int(rng.integers(0, 360)),
+                     'pyth_axis': int(rng.integers(0, len(PYTH))), 'plus': int(rng.integers(0, 2))})
+        tab = [[1.0, 0, 1, 1]]
+        for r in sorted(set(ratios) - {1.0}):
+            a, b, c = PYTH[int(rng.integers(0, len(PYTH)))]
+            if rng.random() < 0.5:
+                a, b = b, a
+            tab.append([r, int(a), int(b), int(c)])
+        case['table'] = tab
+    elif kind in ('lyot', 'occulted'):
+        case.update({'N': int(rng.integers(8, 17)), 'fq': int(rng.choice([2, 3])), 'airy': int(rng.choice([3, 4, 5])),
+                     'law': str(rng.choice(['amplitude', 'size'])), 'gain': float(rng.choice([1.0, 0.5, -0.5, 2.0])),
+                     'stop': bool(rng.random() < 0.6), 'occ': float(rng.choice([2.0, 2.5, 3.0]))})
+    elif kind == 'perfect':
+        case.update({'N': int(rng.integers(6, 13)), 'order': int(rng.choice([2, 4, 6]))})
+    else:
+        case.update({'charge': 2, 'N': int(rng.integers(28, 37)), 'q': 32.0 if kind == 'vortex' else 16.0, 's': float(rng.choice([2, 4])),
+                     'w': int(rng.choice([16, 24])), 'lyot': 0.95})
+    return case
+
+
+DIRECTED_G = [
+    {'part': 'G', 'kind': 'vvc', 'wl0': 1.6e-6, 'ratios': [1.375, 1.0], 'design': 'later', 'argname': 'wavelength', 'seed': 1, 'charge': 2, 'N': 32,
+     'q': 32.0, 's': 4.0, 'w': 16, 'lyot': 0.9, 'law': 'inverse', 'slope': 0.5, 'polarised': False, 'azimuth_deg': 0, 'pyth_axis': 0, 'plus': 1,
+     'table': [[1.0, 0, 1, 1], [1.375, 3, 4, 5]]},
+    {'part': 'G', 'kind': 'vvc', 'wl0': 1.0, 'ratios': [0.75, 1.25, 1.0, 0.75], 'design': 'later', 'argname': 'lam', 'seed': 2, 'charge': 4, 'N': 33,
+     'q': 64.0, 's': 4.0, 'w': 16, 'lyot': 0.95, 'law': 'table', 'slope': 0.5, 'polarised': True, 'azimuth_deg': 117, 'pyth_axis': 1, 'plus': 0,
+     'table': [[1.0, 0, 1, 1], [0.75, 5, 12, 13], [1.25, 15, 8, 17]]},
+    {'part': 'G', 'kind': 'lyot', 'wl0': 1.6e-6, 'ratios': [1.375, 1.0, 0.75], 'design': 'later', 'argname': 'wavelength', 'seed': 3, 'N': 12, 'fq': 3,
+     'airy': 4, 'law': 'amplitude', 'gain': 1.0, 'stop': True, 'occ': 2.5},
+    {'part': 'G', 'kind': 'occulted', 'wl0': 1.0, 'ratios': [2.0, 1.0], 'design': 'later', 'argname': 'w', 'seed': 4, 'N': 10, 'fq': 2,
+     'airy': 4, 'law': 'amplitude', 'gain': 1.0, 'stop': False, 'occ': 2.0},
+    {'part': 'G', 'kind': 'perfect', 'wl0': 1.0, 'ratios': [1.5, 1.0, 0.5], 'design': 'later', 'argname': 'w', 'seed': 5, 'N': 8, 'order': 4},
+    {'part': 'G', 'kind': 'vortex', 'wl0': 1.6e-6, 'ratios': [1.25, 1.0, 1.25], 'design': 'later', 'argname': 'w', 'seed': 6, 'charge': 2, 'N': 32,
+     'q': 32.0, 's': 4.0, 'w': 16, 'lyot': 0.95},
+]
+
+
+def _fdiff(a, b):
+    a, b = np.asarray(a), np.asarray(b)
+    if a.shape != b.shape:
+        return float('inf'), 1.0
+    return float(np.abs(a - b).max()) if a.size else 0.0, max(1.0, float(np.abs(b).max()) if b.size else 1.0)
+
+
+def run_chrom_case(case):
+    """One object driven through the history of wavelengths; every step compared with a fresh object
+    that has only ever seen that wavelength, with the closed form / brute-force formula at that
+    wavelength, and with the nulling clause wherever the design wavelength occurs."""
+    hp = _hp()
+    bad, obs = [], {'steps': []}
+    kind = case['kind']
+    wl0 = case['wl0']
+    wls = [r * wl0 for r in case['ratios']]
+    hist = 'history %s x %g' % (case['ratios'], wl0)
+    rng = np.random.default_rng(case['seed'])
+    try:
+        with warnings.catch_warnings():
+            warnings.simplefilter('ignore')
+            if kind in ('vvc', 'vortex', 'fqpm'):
+                N = case['N']
+                pg = hp.make_pupil_grid(N)
+                ap = hp.evaluate_supersampled(hp.make_circular_aperture(1), pg, 4)
+                ls = hp.evaluate_supersampled(hp.make_circular_aperture(case['lyot']), pg, 4)
+                E_on = hp.Field(np.asarray(ap, dtype=complex), pg)
+                a = math.radians(case.get('azimuth_deg', 30))
+                if kind == 'fqpm':
+                    a = math.radians(33)
+                E_off = hp.Field(np.asarray(ap * np.exp(2j * np.pi * 10 * (pg.x * math.cos(a) + pg.y * math.sin(a))), dtype=complex), pg)
+                stokes = (1, 0.3, -0.2, 0.1) if case.get('polarised') else None
+                kw = dict(q=case['q'], scaling_factor=case['s'], window_size=case['w'])
+                if kind == 'vvc':
+                    ret = _as_callable(lambda x: _retardance(case, x), case['argname'])
+                    make = lambda pr=ret: hp.VectorVortexCoronagraph(case['charge'], ls, phase_retardation=pr, **kw)  # noqa: E731
+                elif kind == 'vortex':
+                    make = lambda: hp.VortexCoronagraph(pg, case['charge'], ls, **kw)  # noqa: E731
+                else:
+                    make = lambda: hp.FQPMCoronagraph(pg, ls, **kw)  # noqa: E731
+                name = {'vvc': 'vector vortex charge %d, retardance law %s' % (case.get('charge', 0), case.get('law')), 'vortex': 'vortex charge 2', 'fqpm': 'fqpm'}[kind]
+                used = make()
+                pin = hp.Wavefront(E_on, 1.0, input_stokes_vector=stokes).total_power
+                T_stop = float((np.abs(ap * ls)**2).sum() / (np.abs(ap)**2).sum())
+                if kind == 'vvc':
+                    # references for the closed form out(delta) = cos(delta/2) out(0) + sin(delta/2) out(pi)
+                    w1 = hp.Wavefront(E_on, 1.0, input_stokes_vector=stokes)
+                    r0 = make(0.0).forward(w1)
+                    r1 = make(math.pi).forward(w1)
+                    o0, o1 = r0.electric_field, r1.electric_field
+                    rs = r0.copy()
+                    rs.electric_field = o0 + o1
+                    P0, P1 = float(r0.total_power), float(r1.total_power)
+                    X = (float(rs.total_power) - P0 - P1) / 2
+                    obs.update({'P0': P0 / pin, 'P1': P1 / pin, 'X': X / pin, 'T_stop': T_stop})
+                fresh_cache = {}
+                for k, wl in enumerate(wls):
+                    wf = hp.Wavefront(E_on, wl, input_stokes_vector=stokes)
+                    out = used.forward(wf)
+                    on = float(out.total_power / wf.total_power)
+                    step = {'wl': wl, 'on': on}
+                    if out.wavelength != wl:
+                        bad.append(('chromatic wavelength-bookkeeping', '%s, %s: output of step %d carries wavelength %r, input %r' % (name, hist, k, out.wavelength, wl)))
+                    if wl not in fresh_cache:
+                        fresh_cache[wl] = make().forward(hp.Wavefront(E_on, wl, input_stokes_vector=stokes)).electric_field
+                    d, sc = _fdiff(out.electric_field, fresh_cache[wl])
+                    if not d <= TOL * sc:
+                        bad.append(('%s chromatic history' % kind, '%s, N=%d q=%g s=%g window=%d, %s: at step %d (wavelength %g) the used object differs from a fresh '
+                                    'object by %.3g (on-axis transmission %.4g)' % (name, N, case['q'], case['s'], case['w'], hist, k, wl, d, on)))
+                    design = (wl == wl0)
+                    if kind == 'vvc':
+                        delta = _retardance(case, wl)
+                        ch, sh = math.cos(delta / 2), math.sin(delta / 2)
+                        step.update({'ch': ch, 'sh': sh, 'delta': delta})
+                        d2, sc2 = _fdiff(out.electric_field, ch * o0 + sh * o1)
+                        if not d2 <= TOL * sc2:
+                            bad.append(('vvc chromatic closed-form', '%s, %s: step %d (wavelength %g, retardance %.4f): output differs from cos(d/2) out(0) + sin(d/2) out(pi) by %.3g'
+                                        % (name, hist, k, wl, delta, d2)))
+                        if not abs(on - ch * ch * T_stop) < 0.01 + 0.02 * ch * ch * T_stop:
+                            bad.append(('vvc chromatic leak', '%s, %s: step %d (wavelength %g, retardance %.4f): on-axis transmission %.4g, closed form cos^2(d/2) x stop throughput = %.4g'
+                                        % (name, hist, k, wl, delta, on, ch * ch * T_stop)))
+                    if design or kind != 'vvc':
+                        if not on < 0.01:
+                            bad.append(('%s chromatic on-axis' % kind, '%s, N=%d, %s: step %d at the design wavelength %g: on-axis transmission %.4g >= 1%%' % (name, N, hist, k, wl, on)))
+                        wf2 = hp.Wavefront(E_off, wl, input_stokes_vector=stokes)
+                        off = float(used.forward(wf2).total_power / wf2.total_power)
+                        step['off'] = off
+                        if not off > 0.5:
+                            bad.append(('%s chromatic off-axis' % kind, '%s, N=%d, %s: step %d at the design wavelength %g: transmission at 10 lambda/D %.4g <= 50%%' % (name, N, hist, k, wl, off)))
+                    obs['steps'].append(step)
+            elif kind in ('lyot', 'occulted'):
+                N = case['N']
+                pg = hp.make_pupil_grid(N)
+                fg = hp.make_focal_grid(case['fq'], case['airy'], spatial_resolution=wl0)
+                ap = hp.make_circular_aperture(1)(pg)
+                E = hp.Field(np.asarray(ap, dtype=complex) * (1 + 0.25 * rng.standard_normal(pg.size) + 0.25j * rng.standard_normal(pg.size)), pg)
+                g = case['gain']
+
+                def maskf(wl):
+                    r = wl / wl0
+                    if case['law'] == 'amplitude':
+                        occ = np.asarray(hp.make_circular_aperture(2 * case['occ'] * wl0)(fg))
+                        return hp.Field((1 - g * (r - 1) * occ) if kind == 'lyot' else g * (r - 1) * (1 - 0.5 * occ), fg)
+                    occ = np.asarray(hp.make_circular_aperture(2 * case['occ'] * wl)(fg))
+                    return hp.Field(1 - occ, fg)
+                stop = hp.Field(np.asarray(hp.make_circular_aperture(0.9)(pg), dtype=float), pg) if case['stop'] else None
+
+                def make():
+                    fpm = hp.Apodizer(_as_callable(maskf, case['argname']))
+                    if kind == 'lyot':
+                        return hp.LyotCoronagraph(pg, fpm, stop, focal_plane_mask_grid=fg)
+                    return hp.OccultedLyotCoronagraph(pg, fpm, focal_plane_mask_grid=fg)
+                name = '%s coronagraph, focal mask a function of wavelength (%s)' % (kind, case['law'])
+                used = make()
+                prop = hp.FraunhoferPropagator(pg, fg)
+                for k, wl in enumerate(wls):
+                    wf = hp.Wavefront(E.copy(), wl)
+                    out = used.forward(wf)
+                    fresh = make().forward(hp.Wavefront(E.copy(), wl))
+                    m = np.asarray(maskf(wl))
+                    foc = prop.forward(hp.Wavefront(E.copy(), wl))
+                    if kind == 'lyot':
+                        foc.electric_field = foc.electric_field * (1 - m)
+                        ref = np.asarray(E) - np.asarray(prop.backward(foc).electric_field)
+                        if stop is not None:
+                            ref = ref * np.asarray(stop)
+                    else:
+                        foc.electric_field = foc.electric_field * m
+                        ref = np.asarray(prop.backward(foc).electric_field)
+                    d, sc = _fdiff(out.electric_field, fresh.electric_field)
+                    if not d <= TOL * sc:
+                        bad.append(('%s chromatic history' % kind, '%s, N=%d, %s: at step %d (wavelength %g) the used object differs from a fresh object by %.3g' % (name, N, hist, k, wl, d)))
+                    d, sc = _fdiff(out.electric_field, ref)
+                    if not d <= TOL * sc:
+                        bad.append(('%s chromatic formula' % kind, '%s, N=%d, %s: at step %d (wavelength %g) forward differs from the formula with the mask of this wavelength by %.3g' % (name, N, hist, k, wl, d)))
+                    if not np.array_equal(np.asarray(wf.electric_field), np.asarray(E)) or wf.wavelength != wl or out.wavelength != wl:
+                        bad.append(('chromatic wavelength-bookkeeping', '%s, %s: step %d changed its input or the wavelength' % (name, hist, k)))
+                    if wl == wl0 and case['law'] == 'amplitude':
+                        want = (np.asarray(E) * (np.asarray(stop) if stop is not None else 1.0)) if kind == 'lyot' else np.zeros(pg.size)
+                        d, sc = _fdiff(out.electric_field, want)
+                        if not d <= TOL * sc:
+                            bad.append(('lyot chromatic transparent' if kind == 'lyot' else 'occulted chromatic opaque',
+                                        '%s, N=%d, %s: step %d at the wavelength where the mask is fully %s: output differs from %s by %.3g'
+                                        % (name, N, hist, k, 'transmissive' if kind == 'lyot' else 'opaque', 'stop x input' if kind == 'lyot' else 'zero', d)))
+                    obs['steps'].append({'wl': wl, 'power': float(out.total_power)})
+            elif kind == 'perfect':
+                N = case['N']
+                pg = hp.make_pupil_grid(N)
+                ap = hp.make_circular_aperture(1)(pg)
+                E = hp.Field(np.asarray(ap, dtype=complex) * (1 + pg.x**3 + 0.5j * pg.y**4 + 0.25 * rng.standard_normal(pg.size)), pg)
+                used = hp.PerfectCoronagraph(ap, case['order'])
+                name = 'perfect coronagraph order %d' % case['order']
+                first = None
+                for k, wl in enumerate(wls):
+                    out = used.forward(hp.Wavefront(E.copy(), wl))
+                    fresh = hp.PerfectCoronagraph(ap, case['order']).forward(hp.Wavefront(E.copy(), wl))
+                    flat = used.forward(hp.Wavefront(hp.Field(np.asarray(ap, dtype=complex), pg), wl))
+                    d, sc = _fdiff(out.electric_field, fresh.electric_field)
+                    if not d <= TOL * sc:
+                        bad.append(('perfect chromatic history', '%s, N=%d, %s: at step %d (wavelength %g) the used object differs from a fresh object by %.3g' % (name, N, hist, k, wl, d)))
+                    if first is None:
+                        first = np.asarray(out.electric_field).copy()
+                    d, sc = _fdiff(out.electric_field, first)
+                    if not d <= TOL * sc:
+                        bad.append(('perfect chromatic', '%s, N=%d, %s: output at step %d (wavelength %g) differs from the output at the first wavelength by %.3g' % (name, N, hist, k, wl, d)))
+                    if out.wavelength != wl:
+                        bad.append(('chromatic wavelength-bookkeeping', '%s, %s: output of step %d carries wavelength %r, input %r' % (name, hist, k, out.wavelength, wl)))
+                    if not float(np.abs(flat.electric_field).max()) <= TOL:
+                        bad.append(('perfect chromatic flat', '%s, N=%d, %s: flat wavefront at step %d (wavelength %g) leaves %.3g' % (name, N, hist, k, wl, float(np.abs(flat.electric_field).max()))))
+                    obs['steps'].append({'wl': wl, 'power': float(out.total_power)})
+            else:
+                raise MachineryError('unknown kind')
+    except MachineryError:
+        raise
+    except Exception as e:  # noqa
+        bad.append(('chromatic raises', '%s coronagraph, %s: raised %s: %s' % (kind, hist, type(e).__name__, str(e)[:100])))
+        obs = None
+    return obs, bad
+
+
+def vvrun_line(case, obs):
+    a, b, c = PYTH[case['pyth_axis']]
+    steps = obs['steps']
+    twl = sorted(set(st['wl'] for st in steps))
+    by = {st['wl']: st for st in steps}
+    return 'C09 vvrun %s %s %s %s %s %s %d' % (rat_list([st['wl'] for st in steps]), rat_list(twl), rat_list([by[w]['ch'] for w in twl]),
+                                               rat_list([by[w]['sh'] for w in twl]), rat(Fraction(a, c)), rat(Fraction(b, c)), case['plus'])
+
+
+def check_vvrun(ctx, case, obs, resp):
+    hp = _hp()
+    toks = resp.split()
+    short = {k: case[k] for k in ('kind', 'charge', 'N', 'law', 'ratios', 'wl0', 'design')}
+    if toks[0] != 'ok' or len(toks) != 12:
+        ctx.disagree('C09 vvrun', {'case': short, 'model': resp[:120]})
+        return
+    V = np.array([float(v) for v in parse_rat_list(toks[1])]).reshape(2, 2)
+    Ve = np.array([float(v) for v in parse_rat_list(toks[2])]) + 1j * np.array([float(v) for v in parse_rat_list(toks[3])])
+    toks = toks[:1] + toks[4:]
+    leak, shared = [float(v) for v in parse_rat_list(toks[1])], [float(v) for v in parse_rat_list(toks[2])]
+    jre, jim = [float(v) for v in parse_rat_list(toks[3])], [float(v) for v in parse_rat_list(toks[4])]
+    co = np.array([float(v) for v in parse_rat_list(toks[5])]) + 1j * np.array([float(v) for v in parse_rat_list(toks[6])])
+    cr = np.array([float(v) for v in parse_rat_list(toks[7])]) + 1j * np.array([float(v) for v in parse_rat_list(toks[8])])
+    a, b, c = PYTH[case['pyth_axis']]
+    phi = math.atan2(b / c, a / c) / 2
+    sgn = 1 if case['plus'] else -1
+    e_in, e_x = np.array([1, sgn * 1j]), np.array([1, -sgn * 1j])
+    for k, st in enumerate(obs['steps']):
+        ctx.traces_validated += 1
+        # the measured on-axis transmission of the real (used) object at this step against the model's leak fraction
+        want = leak[k] * obs['P0'] + (1 - leak[k]) * obs['P1'] + 2 * st['ch'] * st['sh'] * obs['X']
+        if not abs(st['on'] - want) <= TOL * max(1.0, abs(want)):
+            ctx.disagree('C09 vvLeak', {'case': short, 'step': k, 'wavelength': st['wl'], 'measured_on_axis': st['on'], 'model': want, 'model_leak_fraction': leak[k],
+                                       'model_leak_if_instances_were_shared': shared[k]})
+        # the Jones matrix of the real LinearRetarder at this retardance and a Pythagorean fast axis
+        J = np.asarray(hp.LinearRetarder(st['delta'], phi).jones_matrix).reshape(4)
+        Jm = np.array(jre[4 * k:4 * k + 4]) + 1j * np.array(jim[4 * k:4 * k + 4])
+        ctx.traces_validated += 1
+        if not np.abs(J - Jm).max() <= TOL:
+            ctx.disagree('C09 retarderJones', {'case': short, 'step': k, 'real': [str(v) for v in J], 'model': [str(v) for v in Jm]})
+        Je = J.reshape(2, 2) @ e_in
+        # vector_vortex_decomposition: the real Jones matrix is cos(d/2) I + i sin(d/2) V with the model's vortex term
+        ctx.traces_validated += 1
+        if not (np.abs(J.reshape(2, 2) - (st['ch'] * np.eye(2) + 1j * st['sh'] * V)).max() <= TOL and np.abs(Je - (st['ch'] * e_in + 1j * st['sh'] * Ve)).max() <= TOL):
+            ctx.disagree('C09 vortexTerm', {'case': short, 'step': k, 'real': [str(v) for v in J], 'model_vortex_term': V.tolist()})
+        if not (abs(np.vdot(e_in, Je) - co[k]) <= TOL and abs(np.vdot(e_x, Je) - cr[k]) <= TOL):
+            ctx.disagree('C09 coPolar/crossPolar', {'case': short, 'step': k, 'real': [str(np.vdot(e_in, Je)), str(np.vdot(e_x, Je))], 'model': [str(co[k]), str(cr[k])]})
+
+
+def part_g(ctx):
+    cases = [dict(c) for c in DIRECTED_G]
+    for k in range(ctx.scale(10, 90)):
+        cases.append(gen_chrom_case(ctx.rng))
+    lines, plan = [], []
+    t0 = time.time()
+    budget = ctx.scale(40, 200)
+    for case in cases:
+        if case['kind'] in ('vvc', 'vortex', 'fqpm') and time.time() - t0 > budget:
+            ctx.count('G:skipped-for-time')      # only the multi-scale kinds cost anything
+            continue
+        obs, bad = run_chrom_case(case)
+        for key, what in bad:
+            ctx.violation(key, what, case)
+        ctx.count('G:kind:' + case['kind'])
+        ctx.count('G:design-wavelength:' + case['design'])
+        ctx.count('G:history-length:%d' % len(case['ratios']))
+        ctx.count('G:argname:' + case['argname'])
+        if 'law' in case:
+            ctx.count('G:%s-law:%s' % (case['kind'], case['law']))
+        ctx.case({k: case[k] for k in ('kind', 'ratios', 'wl0', 'N')}, ('G', case['kind'], tuple(case['ratios']), case['wl0'], case['N'], case.get('law'), case.get('charge'))
+                 if len(set(case['ratios'])) > 1 else None)
+        if obs is not None and case['kind'] == 'vvc' and obs['steps'] and all('ch' in st for st in obs['steps']):
+            plan.append((case, obs))
+            lines.append(vvrun_line(case, obs))
+    if lines:
+        out = ctx.model(lines)
+        for (case, obs), resp in zip(plan, out):
+            check_vvrun(ctx, case, obs, resp)
+
+
+# =============================================================================================
 
 def run(ctx):
     ctx.rule = ('A: every order on a range, mode and coefficient counts against the model and against h(h+1)/2. '
@@ -1535,7 +1924,13 @@ def run(ctx):
                 'get_transformation_matrix_forward() entry by entry. C also: backward of both Lyot coronagraphs on real propagators and on stand-ins, '
                 '<y, forward x> = <backward y, x> on stand-in pairs B = F^H. F: the real MultiScale/Vortex/FQPM constructors and forward/backward '
                 'running on exact linear stand-ins for every Fourier object (13 small configurations, 1-4 levels): masks level by level, '
-                'outputs, wavelength bookkeeping; telescoping identities on generated nested supports.')
+                'outputs, wavelength bookkeeping; telescoping identities on generated nested supports. '
+                'G: one coronagraph object driven through a generated history of 2-6 wavelengths (ratios 0.5-2 of a design wavelength that is '
+                'later / first / absent / repeated): VectorVortex with phase_retardation a callable of wavelength (laws: pi*l0/l, linear, table of '
+                'Pythagorean half angles; argument spelled wavelength / lam / wvl / w), Lyot and occulted Lyot with a focal-plane mask that is a '
+                'function of wavelength (amplitude or size law), Perfect, Vortex, FQPM; every step against a fresh object, the closed form / '
+                'brute-force formula of that wavelength, the nulling / transparent / opaque clause at the design wavelength; the measured on-axis '
+                'transmission of the used vector vortex at every step against the model leak fraction. Non-trivial = at least two distinct wavelengths.')
     ctx.assumptions += [
         'LAPACK QR + truncated-SVD pseudo-inverse: T+ T = I, T+ = T^H and span(modes) inside range(T) hold up to 1e-9 for the real '
         'transformation matrices (evaluated exactly by the model on every run; a larger defect is reported as a disagreement)',
@@ -1546,6 +1941,8 @@ def run(ctx):
         'FQPM off-axis throughput is measured at least 20 degrees away from the quadrant transitions (an ideal FQPM attenuates sources on them)',
         'multi-scale model domain: q > 2/scaling_factor, scaling_factor > 1; when q/2 is an exact power of the scaling factor the float '
         'logarithm quotient may add one level (counted as boundary)',
+        'chromatic closed form of the vector vortex: the references out(0), out(pi) are two objects with constant retardance 0 and pi used at '
+        'wavelength 1 (constant-retardance objects are wavelength-free: part E, key vvc chromatic)',
         'leakage is measured for N >= 32 pixels across the pupil (10 lambda/D must stay below the pupil Nyquist frequency) and q at least the '
         'documented minimum for the charge',
     ]
@@ -1553,6 +1950,7 @@ def run(ctx):
     part_b(ctx)
     part_c(ctx)
     part_f(ctx)
+    part_g(ctx)
     geo = part_e(ctx)
     part_d(ctx, geo)
 
@@ -1573,6 +1971,8 @@ def replay(ctx, case):
         _, bad = run_leak_case(case)
     elif part == 'F':
         _, bad = run_msalg_case(case)
+    elif part == 'G':
+        _, bad = run_chrom_case(case)
     else:
         raise MachineryError('unknown replay case')
     for key, what in bad:
